@@ -264,6 +264,17 @@ pub struct ReplayFile {
     pub shrink_steps: usize,
     pub plan: Value,
     pub original_plan: Value,
+    /// which simulator binary produced it: "sim" or "rayonstub"
+    #[serde(default = "default_binary")]
+    pub binary: String,
+}
+
+fn default_binary() -> String {
+    "sim".into()
+}
+
+pub fn this_binary() -> String {
+    if cfg!(feature = "rayonstub") { "rayonstub".into() } else { "sim".into() }
 }
 
 struct RunRecord {
@@ -385,7 +396,7 @@ pub fn run_batch<S: Scenario>(sc: &S, opts: &BatchOpts) -> BatchOutcome {
         let watchdog_s: u64 = std::env::var("VERIF_WATCHDOG_S")
             .ok()
             .and_then(|s| s.parse().ok())
-            .unwrap_or(120);
+            .unwrap_or(60);
         let current = &current;
         let next = &next;
         let nfail = &nfail;
@@ -417,6 +428,7 @@ pub fn run_batch<S: Scenario>(sc: &S, opts: &BatchOpts) -> BatchOutcome {
                             shrink_steps: 0,
                             plan: pv.clone(),
                             original_plan: pv,
+                            binary: this_binary(),
                         };
                         let path = write_replay(&opts.replay_dir, &rf);
                         outln!(
@@ -425,6 +437,15 @@ pub fn run_batch<S: Scenario>(sc: &S, opts: &BatchOpts) -> BatchOutcome {
                             path.display()
                         );
                         outln!("  oracle=no-progress scenario={} run={}", sc.name(), i);
+                        if let Some(part) = &opts.part {
+                            let d = sc.doc();
+                            let pj = json!({"scenario": sc.name(), "property": opts.target, "tier": opts.tier.name(), "seed": opts.seed,
+                                "evaluations": i + 1, "distinct_nontrivial": 0, "distinct_schedules": 0, "events": 0, "counters": {},
+                                "rule": d.rule, "real": d.real, "stub": d.stub, "assumptions": d.assumptions,
+                                "samples": [{"scenario": sc.name(), "run": i, "run_seed": rs, "note": "run did not finish (no-progress violation)"}],
+                                "wall_s": t0.elapsed().as_secs_f64(), "runs_per_hour": 0, "violations": 1, "known_findings": 0, "reported": [], "workers": nw});
+                            let _ = std::fs::write(part, serde_json::to_string_pretty(&pj).unwrap());
+                        }
                         std::process::exit(1);
                     }
                 }
@@ -516,6 +537,7 @@ pub fn run_batch<S: Scenario>(sc: &S, opts: &BatchOpts) -> BatchOutcome {
             shrink_steps: steps,
             plan: serde_json::to_value(&plan).unwrap(),
             original_plan: serde_json::to_value(&plan0).unwrap(),
+            binary: this_binary(),
         };
         let path = write_replay(&opts.replay_dir, &rf);
         // re-run the minimised file in a fresh process
